@@ -5,11 +5,12 @@ open BHS.Props.C01
 #print axioms C01_inv_step
 #print axioms C01_wf_step
 #print axioms C01_inv_canon
-#print axioms C01_canonical_partial
+#print axioms C01_canonical
 #print axioms C01_stale_or_lc
 #print axioms C01_answered
 #print axioms C01_idempotent
 #print axioms C01_forbidden
 #print axioms C01_orphan_forever
-#print axioms C01_canonical_counterexample
+#print axioms C01_zero_work_never_lc
+#print axioms C01_zero_work_stays_stale
 #print axioms BHS.Props.SqlShape.add_statements
